@@ -135,6 +135,8 @@ struct Runner {
 
     bool clientSocketUp() const { return c->stream()->socket()->state() == QAbstractSocket::ConnectedState; }
     bool clientSocketIdle() const { return c->stream()->socket()->state() == QAbstractSocket::UnconnectedState; }
+    // neither connecting nor closing: only then is the projected state meaningful
+    bool clientSocketSettled() const { return clientSocketUp() || clientSocketIdle(); }
 
     // wait until the client has consumed what the peer wrote and the peer has seen what the client wrote
     void settle(int receivedBefore, bool expectConsume)
@@ -151,6 +153,9 @@ struct Runner {
             return true;
         });
         qxvDrain();
+        // a closing socket (TLS shutdown, pending writes) must finish closing before the state is read
+        ok = ok && qxvSpin([&] { return clientSocketSettled(); });
+        qxvDrain();
         if (!ok) {
             hang = true;
         }
@@ -166,7 +171,7 @@ struct Runner {
             lst = sm.request == 1 ? "SmResume" : sm.request == 2 ? "SmEnable" : "Sm";
         }
         return QJsonObject {
-            { "sock", clientSocketUp() ? "On" : "Off" },
+            { "sock", clientSocketUp() ? "On" : clientSocketIdle() ? "Off" : "Mid" },
             { "enc", c->stream()->socket()->isEncrypted() && clientSocketUp() },
             { "lst", lst },
             { "ver", p->streamVersion.isEmpty() ? "none" : "v1" },
@@ -188,6 +193,11 @@ struct Runner {
 
     void emitStep(QJsonObject ev)
     {
+        if (!clientSocketSettled()) {
+            bool ok = qxvSpin([&] { return clientSocketSettled(); });
+            qxvDrain();
+            hang = hang || !ok;
+        }
         QJsonArray out;
         bool rawLeak = false;
         for (; sentSeen < c->sent.size(); ++sentSeen) {
